@@ -8,8 +8,9 @@ from fractions import Fraction
 
 import numpy as np
 
-# fewer GC threads: the machine is shared and ParallelGC's default (one thread per core) thrashes
-TLC_ENV = {"JAVA_TOOL_OPTIONS": "-XX:ParallelGCThreads=2"}
+# fewer GC threads (the machine is shared; ParallelGC defaults to one thread per core) and a deep
+# worker stack (TLC evaluates RECURSIVE operators / FoldSet on the Java stack)
+TLC_ENV = {"JAVA_TOOL_OPTIONS": "-XX:ParallelGCThreads=2 -Xss64m"}
 
 SOUND_INVARIANTS = ["FixedMeetsDefinition", "FixedTieFree", "FixedMonotone", "PoissonOptimal", "PrefixOptimal",
                     "DictOK", "ResultIsSegmentation"]
@@ -37,7 +38,7 @@ def cp_run(ctx, name, invariants, *, inst_file=None, must_hold=True, workers=8, 
     if inst_file:
         env["INST_FILE"] = inst_file
     return ctx.tlc("Changepoints", cfg, workers=workers, env=env, must_hold=must_hold, required_actions=required,
-                   coverage=must_hold)
+                   coverage=must_hold, timeout=1500)
 
 
 def write_ndjson(path, rows):
@@ -223,7 +224,7 @@ def rs_run(ctx, name, invariants, *, inst_file=None, simulate=None, depth=None, 
     if simulate:
         kw = {"simulate": {"num": simulate}, "depth": depth or 40, "coverage": False}
         required = ()
-    return ctx.tlc("Rescale", cfg, workers=workers, env=env, required_actions=required, **kw)
+    return ctx.tlc("Rescale", cfg, workers=workers, env=env, required_actions=required, timeout=1500, **kw)
 
 
 def group_rescale(recs):
@@ -557,3 +558,83 @@ def judge(ctx, pid, checks, events, meta, label):
         ev = next(e for e in events if e["tid"] == r["tid"])
         ctx.violation(f"{pid}/{label}/{r['clause']}", {"event": ev, "meta": meta.get(r["tid"]), "checks": checks},
                       f"trace {r['tid']} rejected by RescaleTrace at clause {r['clause']}", subcheck=label)
+
+
+# ---------------------------------------------------------------------------------------
+# C37: rescale_tree_sequence
+# ---------------------------------------------------------------------------------------
+
+def is_simplified(ts):
+    """premise of C37: simplifying changes nothing (no unreferenced / unary-only nodes, one root per tree)"""
+    s = ts.simplify()
+    return (s.num_nodes == ts.num_nodes and s.num_edges == ts.num_edges and s.num_mutations == ts.num_mutations
+            and np.array_equal(s.edges_parent, ts.edges_parent) and np.array_equal(s.edges_child, ts.edges_child)
+            and np.array_equal(s.edges_left, ts.edges_left) and np.array_equal(s.edges_right, ts.edges_right))
+
+
+def rescale_rows_from_sweep(inst, ts, row_id, J, mu):
+    """a Sweep behaviour (TSGen forest + the per-edge tallies TLC computed) as a Rescale instance: the
+    tallies are exactly what rescale_tree_sequence feeds to mutational_timescale"""
+    edges = [[e[2] + 1, e[3] + 1, int(m), int(s)] for e, m, s in zip(inst["edges"], inst["emuts"], inst["espan"])]
+    return {"id": row_id, "time": [int(t) for t in inst["time"]], "fixed": [u + 1 for u in range(inst["NS"])],
+            "edges": edges, "J": J, "mu": list(mu)}
+
+
+def call_rescale_ts(ts, mu, **kw):
+    from tsdate import rescaling
+    try:
+        return rescaling.rescale_tree_sequence(ts, mu, **kw), None
+    except Exception as ex:  # noqa: BLE001
+        return None, ex
+
+
+def ts_event(tid, ts_in, ts_out):
+    """one RescaleTrace "ts" event, or a message when the node tables are not even comparable"""
+    n = ts_in.num_nodes
+    if ts_out.num_nodes != n:
+        return None, f"node table has {ts_out.num_nodes} rows, input had {n}"
+    try:
+        ts_out.tables.tree_sequence()
+        valid = True
+    except Exception:  # noqa: BLE001
+        valid = False
+    coords = np.unique(np.concatenate([ts_in.edges_left, ts_in.edges_right, ts_out.edges_left, ts_out.edges_right,
+                                       ts_in.sites_position, ts_out.sites_position]))
+    ix = lambda a: (np.searchsorted(coords, a) + 1).tolist()  # noqa: E731
+
+    def edge_rows(ts):
+        return [list(r) for r in zip(ix(ts.edges_left), ix(ts.edges_right), (ts.edges_parent + 1).tolist(),
+                                     (ts.edges_child + 1).tolist())]
+
+    def mut_rows(ts):
+        return sorted([int(s) + 1, int(u) + 1] for s, u in zip(ts.mutations_site, ts.mutations_node))
+
+    tout = ts_out.nodes_time
+    mt = ts_out.mutations_time
+    node = ts_out.mutations_node
+    pos = ts_out.sites_position[ts_out.mutations_site]
+    mid = np.empty(ts_out.num_mutations)
+    root = np.zeros(ts_out.num_mutations, dtype=bool)
+    if ts_out.num_mutations:
+        tree = ts_out.first()
+        for m in range(ts_out.num_mutations):
+            tree.seek(pos[m])
+            p = tree.parent(node[m])
+            if p == -1:
+                root[m] = True
+                mid[m] = tout[node[m]]
+            else:
+                mid[m] = (tout[p] + tout[node[m]]) / 2
+    vals = np.concatenate([ts_in.nodes_time, tout, mt, mid])
+    if not np.all(np.isfinite(vals)):
+        return None, "non-finite node or mutation time"
+    uniq = np.unique(vals)
+    rk = lambda a: (np.searchsorted(uniq, a) + 1).tolist()  # noqa: E731
+    sample = np.zeros(n, dtype=bool)
+    sample[ts_in.samples()] = True
+    ev = {"kind": "ts", "tid": tid, "n": int(n), "valid": valid, "sample": [bool(x) for x in sample],
+          "tin": rk(ts_in.nodes_time), "tout": rk(tout), "ein": edge_rows(ts_in), "eout": edge_rows(ts_out),
+          "sin": ix(ts_in.sites_position), "sout": ix(ts_out.sites_position), "mnin": mut_rows(ts_in),
+          "mnout": mut_rows(ts_out), "mt": rk(mt), "mid": rk(mid), "mnode": rk(tout[node]) if len(node) else [],
+          "mroot": [bool(x) for x in root]}
+    return ev, None
